@@ -1,42 +1,185 @@
-import RzilVerif.Model.Compile
+import RzilVerif.Lemmas.ExprCases
 /-!
-# C03 — conversions (first version; the full preservation theorems are being proved separately)
+# C03 — conversions
+
+1. `ilCast_msb_eq_signExtend`, `ilCast_false_eq_setWidth` (in `Lemmas/ExprBits.lean`): `CAST(w, MSB x, x)` is sign
+   extension/truncation, `CAST(w, IL_FALSE, x)` is zero extension/truncation.
+2. `Rel`, `TyOK` (in `Lemmas/ExprLemmas.lean`; bundled with the object-kind invariant as `Sim`).
+3. `initACast_fixed_correct` — `init_a_cast` of the repaired lowering is the C conversion, for all widths.
+4. T2 `initACast_asCode_eq_fixed` under the decidable `CastSafe`; `initACast_asCode_sem_eq_fixed_narrow`.
+5. T3 witnesses `t3_int8_to_uint64_asCode` / `_C`, and one per disjunct of `CastSafe`.
+6. `conv_chain`.
 -/
 namespace Rzil
 
-/-- Narrowing keeps the low bits, whatever the signedness. -/
-theorem convBits_narrow (src dst : CT) {n : Nat} (x : BitVec n) (h : dst.width ≤ n) :
-    convBits src dst x = x.setWidth dst.width := by
-  simp [convBits, h]
+/-! ## 3. `initACast Cfg.fixed` is the C conversion -/
 
-/-- Widening sign-extends exactly when the SOURCE is signed. -/
-theorem convBits_widen_signed (src dst : CT) {n : Nat} (x : BitVec n) (h : n < dst.width) (hs : src.signed = true) :
-    convBits src dst x = x.signExtend dst.width := by
-  have : ¬ dst.width ≤ n := by omega
-  simp [convBits, this, hs]
-
-theorem convBits_widen_unsigned (src dst : CT) {n : Nat} (x : BitVec n) (h : n < dst.width) (hs : src.signed = false) :
-    convBits src dst x = x.setWidth dst.width := by
-  have : ¬ dst.width ≤ n := by omega
-  simp [convBits, this, hs]
-
-/-- The code's cast (`Cfg.asCode`) and the conforming cast agree except for a signed source widened into an
-    unsigned target. -/
-theorem initACast_asCode_eq_fixed_partial (target : VT) (p : CE)
-    (hb : p.ty.hasFlag VT.gBOOL = false)
-    (h : ¬ (p.ty.signed = true ∧ target.signed = false)) :
-    (initACast Cfg.asCode target p).il = (initACast Cfg.fixed target p).il := by
+theorem initACast_fixed_kind_irrelevant (target : VT) (p : CE) :
+    (initACast Cfg.fixed target p).il = (initACast Cfg.fixed target { p with kind := .plain }).il ∧
+    (initACast Cfg.fixed target p).ty = (initACast Cfg.fixed target { p with kind := .plain }).ty := by
   unfold initACast
-  by_cases he : target.eqv p.ty = true
-  · simp [he]
-  · simp only [he, hb, Bool.false_and, Bool.false_eq_true, ↓reduceIte]
-    simp only [Cfg.asCode, Cfg.fixed]
-    cases hs : p.ty.signed <;> cases ht : target.signed <;> simp_all
+  simp only [cfgsimp]
+  split
+  · exact ⟨rfl, rfl⟩
+  · split <;> exact ⟨rfl, rfl⟩
 
-/-- Witness (T3): `(uint64_t)(int8_t)x` — the code fills with IL_FALSE, the conforming cast with MSB. -/
-example : (initACast Cfg.asCode ⟨false, 64, 1⟩ { il := .varl "a", ty := ⟨true, 8, 1⟩, kind := .plain }).il
-    = .cast 64 .bfalse (.varl "a") := rfl
-example : (initACast Cfg.fixed ⟨false, 64, 1⟩ { il := .varl "a", ty := ⟨true, 8, 1⟩, kind := .plain }).il
-    = .cast 64 (.un .msb (.varl "a")) (.varl "a") := rfl
+/-- from the three components of the specification to `Sim` (object kind forgotten) -/
+theorem Sim.of_spec {ms σ} {p : CE} {src : CT} {vIL vC : Val}
+    (hev : evalPure ms σ [] p.il = .ok vIL) (hrel : Rel p.ty vIL vC) (hty : TyOK p.ty src vC) :
+    Sim ms σ { p with kind := .plain } src vC := by
+  unfold Rel at hrel
+  unfold TyOK at hty
+  cases hf : p.ty.hasFlag VT.gBOOL
+  · simp only [hf, Bool.false_eq_true, if_false] at hrel hty
+    obtain ⟨hs, hw, x, hx⟩ := hty
+    subst hrel
+    refine Sim.int x hf ?_ (by rw [hev, hx]) hx (kindOK_plain _ _)
+    cases src; simp only [vtCT] at *; rw [hs, hw]
+  · simp only [hf, if_true] at hrel hty
+    obtain ⟨b, hb, hv⟩ := hrel
+    subst hb
+    exact Sim.bool b hf hty.2.1 hty.2.2 hty.1 hev hv (kindOK_plain _ _)
+
+/-- **C03.3** `init_a_cast(target, p)` of the repaired lowering implements the C conversion from the C type `src`
+    of `p` to the C type of `target`, for all widths: narrowing keeps the low bits, widening sign-extends iff the
+    SOURCE is signed, same width keeps the pattern, a BOOL-flagged source becomes 0/1.
+    Side conditions: `target` is not BOOL-flagged; a BOOL-flagged `p` (type `ut1`) is not converted to a plain
+    1-bit unsigned type (then `init_a_cast` returns `p` itself, still BOOL-flagged: see `initACast_bool_to_u1`). -/
+theorem initACast_fixed_correct (ms : MacroSem) (σ : MState) (p : CE) (src : CT) (vIL vC : Val) (target : VT)
+    (hev : evalPure ms σ [] p.il = .ok vIL) (hrel : Rel p.ty vIL vC) (hty : TyOK p.ty src vC)
+    (htf : target.hasFlag VT.gBOOL = false)
+    (hne : p.ty.hasFlag VT.gBOOL = true → target.eqv p.ty = false) :
+    ∃ v' v'', evalPure ms σ [] (initACast Cfg.fixed target p).il = .ok v' ∧
+      convC src (vtCT target) vC = .ok v'' ∧
+      Rel (initACast Cfg.fixed target p).ty v' v'' ∧ TyOK (initACast Cfg.fixed target p).ty (vtCT target) v'' := by
+  have hs := Sim.of_spec hev hrel hty
+  obtain ⟨x, hx⟩ := hs.bv
+  have h := sim_initACast hs target htf hne x hx (vtCT target) rfl
+  obtain ⟨v', h1, h2, h3⟩ := h.spec
+  rw [← (initACast_fixed_kind_irrelevant target p).1] at h1
+  rw [← (initACast_fixed_kind_irrelevant target p).2] at h2 h3
+  exact ⟨v', _, h1, by rw [hx]; rfl, h2, h3⟩
+
+/-- what the conversion computes on bit patterns (unfolding `convC`/`convBits`) -/
+theorem convC_bv (src dst : CT) {n : Nat} (x : BitVec n) :
+    convC src dst (.bv n x) = .ok (.bv dst.width
+      (if dst.width ≤ n then x.setWidth dst.width else if src.signed then x.signExtend dst.width else x.setWidth dst.width)) := rfl
+
+/-- non-vacuity of `initACast_fixed_correct`: `(uint64_t)` of an `int8_t` local holding −1 -/
+example : ∃ (ms : MacroSem) (σ : MState) (p : CE) (src : CT) (vIL vC : Val) (target : VT),
+    evalPure ms σ [] p.il = .ok vIL ∧ Rel p.ty vIL vC ∧ TyOK p.ty src vC ∧ target.hasFlag VT.gBOOL = false ∧
+    (p.ty.hasFlag VT.gBOOL = true → target.eqv p.ty = false) :=
+  ⟨fun _ _ => none, default, { il := .const true 8 (-1), ty := ⟨true, 8, 1⟩, kind := .plain }, ⟨true, 8⟩,
+    .bv 8 0xff, .bv 8 0xff, ⟨false, 64, 1⟩, rfl, by simp [Rel, VT.hasFlag, VT.gBOOL],
+    by simp [TyOK, VT.hasFlag, VT.gBOOL], by decide, by decide⟩
+
+/-- the excluded case: a comparison result converted to a plain 1-bit unsigned type is returned as it is
+    (BOOL-flagged, IL sort `bool`), whereas the C value is a 1-bit integer -/
+theorem initACast_bool_to_u1 (cfg : Cfg) (p : CE) (h : p.ty = gBoolT) :
+    initACast cfg { signed := false, width := 1, group := 1 } p = p := by
+  apply initACast_of_eqv; rw [h]; rfl
+
+/-! ## 4. T2: where the code's `init_a_cast` coincides with the repaired one -/
+
+/-- **C03.4 (T2)** -/
+theorem initACast_asCode_eq_fixed (target : VT) (p : CE) (h : CastSafe target p = true) :
+    initACast Cfg.asCode target p = initACast Cfg.fixed target p := by
+  unfold CastSafe at h
+  unfold initACast
+  simp only [cfgsimp, if_true, Bool.false_eq_true, if_false]
+  by_cases he : target.eqv p.ty = true
+  · rw [if_pos he, if_pos he]
+  · rw [if_neg he, if_neg he]
+    simp only [he, Bool.false_or] at h
+    by_cases hb : (p.ty.hasFlag VT.gBOOL && !(target.hasFlag VT.gBOOL)) = true
+    · rw [if_pos hb, if_pos hb]
+      rw [if_pos hb] at h
+      have hk : p.kind = .boolObj := by simpa using h
+      simp only [condILk, hk]
+    · rw [if_neg hb, if_neg hb]
+      rw [if_neg hb] at h
+      simp only [Bool.or_eq_true, Bool.not_eq_true'] at h
+      rcases h with h | h
+      · simp only [h, Bool.and_false, Bool.false_eq_true, if_false]
+      · simp only [h, Bool.true_and]
+
+example : CastSafe ⟨true, 64, 1⟩ { il := .varl "a", ty := ⟨true, 8, 1⟩, kind := .plain } = true := by decide
+example : CastSafe ⟨false, 64, 1⟩ { il := .varl "a", ty := ⟨false, 8, 1⟩, kind := .plain } = true := by decide
+
+/-- the condition of the specification text: the conversion is not one of a signed source to a wider unsigned
+    target (and a BOOL source is a `BooleanOp`/`CompareOp`); then the two lowerings may differ syntactically (fill
+    bit of a non-widening cast) but agree semantically: -/
+theorem initACast_asCode_sem_eq_fixed_narrow (ms : MacroSem) (σ : MState) (target : VT) (p : CE) {n : Nat} (x : BitVec n)
+    (hev : evalPure ms σ [] p.il = .ok (.bv n x)) (hw : target.width ≤ n) (hnb : p.ty.hasFlag VT.gBOOL = false) :
+    evalPure ms σ [] (initACast Cfg.asCode target p).il = evalPure ms σ [] (initACast Cfg.fixed target p).il := by
+  unfold initACast
+  simp only [cfgsimp, if_true, Bool.false_eq_true, if_false, hnb, Bool.false_and]
+  split
+  · rfl
+  · have hc : ∀ f : Bool, ilCast target.width f x = x.setWidth target.width := by
+      intro f; unfold ilCast; rw [if_pos hw]
+    cases target.signed <;> cases p.ty.signed <;>
+      simp [evalPure, hev, bind, Except.bind, evalUn, hc]
+
+/-- non-vacuity: `(uint8_t)` of an `int` constant −1 -/
+example (ms : MacroSem) (σ : MState) :
+    evalPure ms σ [] (CE.il { il := .const true 32 (-1), ty := ⟨true, 32, 1⟩, kind := .plain }) = .ok (.bv 32 (BitVec.ofInt 32 (-1))) ∧
+    (⟨false, 8, 1⟩ : VT).width ≤ 32 ∧ (⟨true, 32, 1⟩ : VT).hasFlag VT.gBOOL = false :=
+  ⟨rfl, by decide, by decide⟩
+
+/-! ## 5. T3: witnesses -/
+
+/-- `int8_t` −1 converted to `uint64_t` by the code as it is: `0xff` -/
+theorem t3_int8_to_uint64_asCode (ms : MacroSem) (σ : MState) :
+    evalPure ms σ [] (initACast Cfg.asCode ⟨false, 64, 1⟩ { il := .const true 8 (-1), ty := ⟨true, 8, 1⟩, kind := .plain }).il
+      = .ok (.bv 64 0xff) := by
+  simp [initACast, VT.eqv, VT.hasFlag, VT.gBOOL, cfgsimp, evalPure, bind, Except.bind, ilCast]
+
+/-- … by the repaired lowering and in C: `0xffff_ffff_ffff_ffff` -/
+theorem t3_int8_to_uint64_fixed (ms : MacroSem) (σ : MState) :
+    evalPure ms σ [] (initACast Cfg.fixed ⟨false, 64, 1⟩ { il := .const true 8 (-1), ty := ⟨true, 8, 1⟩, kind := .plain }).il
+      = .ok (.bv 64 0xffff_ffff_ffff_ffff) := by
+  simp [initACast, VT.eqv, VT.hasFlag, VT.gBOOL, cfgsimp, evalPure, bind, Except.bind, evalUn, ilCast]
+  decide
+
+theorem t3_int8_to_uint64_C :
+    convC ⟨true, 8⟩ ⟨false, 64⟩ (.bv 8 (BitVec.ofInt 8 (-1))) = .ok (.bv 64 0xffff_ffff_ffff_ffff) := by
+  simp [convC, convBits]
+
+/-- syntactic difference for each way `CastSafe` fails -/
+theorem t3_castSafe_signed_to_unsigned :
+    initACast Cfg.asCode ⟨false, 64, 1⟩ { il := .varl "a", ty := ⟨true, 8, 1⟩, kind := .plain } ≠
+    initACast Cfg.fixed ⟨false, 64, 1⟩ { il := .varl "a", ty := ⟨true, 8, 1⟩, kind := .plain } := by
+  simp [initACast, VT.eqv, VT.hasFlag, VT.gBOOL, cfgsimp]
+
+theorem t3_castSafe_bool_not_boolObj :
+    initACast Cfg.asCode ⟨true, 32, 1⟩ { il := .btrue, ty := gBoolT, kind := .boolLit true } ≠
+    initACast Cfg.fixed ⟨true, 32, 1⟩ { il := .btrue, ty := gBoolT, kind := .boolLit true } := by
+  simp [initACast, VT.eqv, VT.hasFlag, VT.gBOOL, gBoolT, gBool, cfgsimp, condILk]
+
+/-! ## 6. chains of conversions -/
+
+/-- **C03.6** two successive `init_a_cast` of the repaired lowering behave like `convC ∘ convC` -/
+theorem conv_chain {ms σ p src vC} (hs : Sim ms σ p src vC) (t1 t2 : VT)
+    (h1 : t1.hasFlag VT.gBOOL = false) (h2 : t2.hasFlag VT.gBOOL = false)
+    (hne : p.ty.hasFlag VT.gBOOL = true → t1.eqv p.ty = false) :
+    ∃ v1 v2, convC src (vtCT t1) vC = .ok v1 ∧ convC (vtCT t1) (vtCT t2) v1 = .ok v2 ∧
+      Sim ms σ (initACast Cfg.fixed t2 (initACast Cfg.fixed t1 p)) (vtCT t2) v2 := by
+  obtain ⟨x, hx⟩ := hs.bv
+  have s1 := sim_initACast hs t1 h1 hne x hx (vtCT t1) rfl
+  have n1 := initACast_noBool Cfg.fixed t1 p h1 hne
+  have s2 := sim_initACast s1 t2 h2 (by intro h; rw [n1] at h; cases h) _ rfl (vtCT t2) rfl
+  exact ⟨_, _, by rw [hx]; rfl, rfl, s2⟩
+
+/-- non-vacuity of `conv_chain`: `(int64_t)(int8_t)5` -/
+example (ms : MacroSem) (σ : MState) :
+    Sim ms σ { il := numberIL ⟨true, 32, 1⟩ 5, ty := ⟨true, 32, 1⟩, kind := .lit 5 } ⟨true, 32⟩ (.bv 32 5) ∧
+    (⟨true, 8, 1⟩ : VT).hasFlag VT.gBOOL = false ∧ (⟨true, 64, 1⟩ : VT).hasFlag VT.gBOOL = false :=
+  ⟨Sim.int (t := ⟨true, 32⟩) 5 (by decide) rfl (by simp [numberIL, evalPure]) rfl
+    (by simp only [KindOK, numberIL, true_and]; exact ⟨by decide, by decide, by decide⟩), by decide, by decide⟩
+
+/-- promotion followed by a conversion is the direct conversion (6.3.1.1 then 6.3.1.3 = 6.3.1.3) -/
+theorem conv_chain_promote (s d : CT) (x : BitVec s.width) :
+    convBits s.promote d (convBits s s.promote x) = convBits s d x := convBits_promote s d x
 
 end Rzil
